@@ -843,6 +843,8 @@ def c10(work, tier, seed):
                 c["session"] = c.get("session", 0) + 1
             if '"op":"readout"' in line:
                 c["readout"] = c.get("readout", 0) + 1
+            if '"op":"optcmd"' in line:
+                c["setoption"] = c.get("setoption", 0) + 1
         r.stats = c
         return r
     results = vlib.run_many(one, range(shards))
@@ -853,7 +855,7 @@ def c10(work, tier, seed):
         rep.sample(vlib.read_line(results[0].trace, i)[:700])
     vlib.absorb_trace_results(rep, results)
     require(rep, ["shape:new", "shape:extend", "shape:repeat", "shape:shorten", "shape:same-start-other-line",
-                  "shape:fen-number-extension", "shape:ucinewgame", "readout"], "C10")
+                  "shape:fen-number-extension", "shape:ucinewgame", "readout", "setoption"], "C10")
     rep.assumptions = ["commands are handed to the real driver loop through an unbuffered channel and followed by an isready/readyok barrier before the engine is inspected",
                        "the history used for repetition detection is read out at the end of a session by popping a fork of the engine's board to its root; sessions have random lengths, so every prefix length is sampled",
                        "only legal move lists are sent (the property quantifies over those)"]
